@@ -175,5 +175,7 @@ pub fn token_line(t: &Token) -> Option<String> {
     })
 }
 pub fn silence_panics() {
+    // panics of the formatter are caught and reported as records; SVH_PANIC=1 shows them (and the harness's own)
+    if std::env::var("SVH_PANIC").is_ok() { return; }
     std::panic::set_hook(Box::new(|_| {}));
 }
